@@ -310,6 +310,42 @@ def run(repo: Repo, ctx, grammar_modules=None, rule_prefix='C01',
                    f'expression the text re-parses with a different '
                    f'grouping (not in the reviewed list of statement-level '
                    f'contexts)', f.loc, sample=allowed.get(cls))
+    # an exemption for a parent class with several expression children
+    # names the child it is about (parent.<field> is node)
+    np_ = gen.methods.get('_needs_parentheses')
+    if np_ is None:
+        raise AnalysisError('C01.R6: _needs_parentheses not found')
+    for grp in ast.walk(np_.node):
+        if not (isinstance(grp, ast.BoolOp) and isinstance(grp.op, ast.And)):
+            continue
+        classes = []
+        for v in grp.values:
+            if isinstance(v, ast.Call) and dotted(v.func) == 'isinstance' \
+                    and len(v.args) == 2 and norm(v.args[0]) == 'parent' \
+                    and not isinstance(v.args[1], ast.Tuple):
+                classes.append(norm(v.args[1]).split('.')[-1])
+        for cn in classes:
+            q = f'{QLAST}.{cn}'
+            if q not in repo.classes:
+                continue
+            kids = [f_ for f_, (_o, a) in repo.class_fields(q).items()
+                    if any(t in norm(a.annotation) for t in (
+                        'Expr', 'Query', 'Statement'))
+                    and f_ not in ('aliases',)]
+            named = {norm(v.left).split('.')[-1] for v in grp.values
+                     if isinstance(v, ast.Compare) and len(v.ops) == 1
+                     and isinstance(v.ops[0], ast.Is)
+                     and norm(v.comparators[0]) == 'node'
+                     and norm(v.left).startswith('parent.')}
+            ok = len(kids) < 2 or bool(named)
+            ctx.ob('C01.R6', f'_needs_parentheses:{cn}:names-the-child', ok,
+                   f'the parenthesis exemption under {cn} applies to every '
+                   f'child of it ({sorted(kids)}), not to one named child: '
+                   f'a statement in another position (e.g. the iterator of '
+                   f'a UNION-less FOR) is printed bare, which the grammar '
+                   f'rejects or groups differently', np_.loc,
+                   sample=f'children={sorted(kids)} restricted to '
+                          f'{sorted(named)}')
     ctx.ob('C01.R6', 'operators-always-parenthesised',
            all(_always_parens(gen.methods[m_]) for m_ in (
                'visit_BinOp', 'visit_IsOp', 'visit_TypeOp')
@@ -317,6 +353,13 @@ def run(repo: Repo, ctx, grammar_modules=None, rule_prefix='C01',
            'a binary-operator visitor no longer wraps its output in '
            'parentheses unconditionally', gen.loc,
            sample='BinOp / IsOp / TypeOp: ( left OP right )')
+
+    # ---- R8 data written between quote delimiters is escaped ---------------------
+    quote_sink_rule(repo, ctx, gen, 'C01.R8')
+    # ---- R9 every enum value the grammar can set has a spelling ------------------
+    enum_member_rule(repo, ctx, gen, gm, 'C01.R9')
+    # ---- R10 prefix operations as left operands keep their parentheses ------------
+    prefix_left_operand_rule(repo, ctx, gen, 'C01.R10')
 
     # ---- R4 (shared with C18) --------------------------------------------------
     from . import c18
@@ -695,41 +738,234 @@ def rewritten_node_rule(repo: Repo, ctx, gen, rule: str) -> None:
             changes[name] = flds
     n_sites = 0
     for name, f in sorted(gen.methods.items()):
-        for a in walk_no_nested(f.node):
-            if not (isinstance(a, ast.Assign) and len(a.targets) == 1
-                    and isinstance(a.targets[0], ast.Name)
-                    and isinstance(a.value, ast.Call)
-                    and isinstance(a.value.func, ast.Attribute)
-                    and norm(a.value.func.value) == 'self'
-                    and a.value.func.attr in changes
-                    and len(a.value.args) == 1
-                    and norm(a.value.args[0]) == a.targets[0].id):
-                continue
-            var = a.targets[0].id
-            flds = changes[a.value.func.attr]
+        if name in changes:
+            continue
+        calls = [c for c in walk_no_nested(f.node) if isinstance(c, ast.Call)
+                 and isinstance(c.func, ast.Attribute)
+                 and norm(c.func.value) == 'self'
+                 and c.func.attr in changes and len(c.args) == 1
+                 and isinstance(c.args[0], ast.Name)]
+        for call in calls:
+            var = call.args[0].id
+            flds = changes[call.func.attr]
             n_sites += 1
             g = CFG(f.node)
-            rb = g.nodes_of(a)
+            rebind = [a for a in walk_no_nested(f.node)
+                      if isinstance(a, ast.Assign) and a.value is call
+                      and len(a.targets) == 1 and norm(a.targets[0]) == var]
+            rb = g.nodes_of(rebind[0]) if rebind else []
             stale = []
             for n in g.nodes:
                 if n.kind not in ('stmt', 'test') or n.id in rb:
                     continue
-                for x in g.node_exprs(n) if hasattr(g, 'node_exprs') else []:
+                for x in g.node_exprs(n):
                     for at in ast.walk(x):
                         if isinstance(at, ast.Attribute) and at.attr in flds \
                                 and norm(at.value) == var and isinstance(
                                     at.ctx, ast.Load):
-                            if rb and not g.always_before(n.id, rb):
+                            if not rb or not g.always_before(n.id, rb):
                                 stale.append((at.attr, getattr(
                                     n.ast, 'lineno', 0)))
-            ctx.ob(rule, f'{name}:{a.value.func.attr}', not stale,
+            how = (f'`{norm(rebind[0])[:50]}` replaces the node'
+                   if rebind else
+                   f'the rewritten copy `{norm(call)[:45]}` is only handed '
+                   f'on, {var} itself stays unrewritten')
+            ctx.ob(rule, f'{name}:{call.func.attr}', not stale,
                    f'{name} reads {var}.{sorted({s_ for s_, _ in stale})} '
-                   f'before `{norm(a)[:50]}` replaces the node: the '
-                   f'decision is taken on a node without the rewritten '
-                   f'{sorted(flds)} (for pointers: the EXTENDING bases moved '
-                   f'into the command block), so the clause it guards is '
-                   f'printed for the wrong node or not at all', f.loc,
+                   f'on the original node ({how}): the decision is taken on '
+                   f'a node without the rewritten {sorted(flds)} (for '
+                   f'pointers: the EXTENDING bases moved into the command '
+                   f'block), so the clause it guards is printed for the '
+                   f'wrong node or not at all', f.loc,
                    sample=f'all reads of {sorted(flds)} after the rebinding')
     if n_sites < 3:
         raise AnalysisError(f'{rule}: node-rewriting visitors not found '
                             f'({n_sites})')
+
+
+def quote_sink_rule(repo: Repo, ctx, gen, rule: str) -> None:
+    """A visitor that opens and closes a quoted literal itself writes, in
+    between, only constants, sub-visits and values that went through an
+    escaping function."""
+    ctx.floor(rule, 2)
+    n = 0
+    for name, f in sorted(gen.methods.items()):
+        writes = []
+        for c in walk_no_nested(f.node):
+            if isinstance(c, ast.Call) and norm(c.func) == 'self.write':
+                writes.append(c)
+        writes.sort(key=lambda c: (c.lineno, c.col_offset))
+
+        def is_quote(a):
+            return isinstance(a, ast.Constant) and isinstance(
+                a.value, str) and a.value[-1:] in ("'", '"') and len(
+                a.value) <= 3
+        args = [(c, a) for c in writes for a in c.args]
+        qpos = [i for i, (_c, a) in enumerate(args) if is_quote(a)]
+        if len(qpos) < 2:
+            continue
+        n += 1
+        ctx.saw(f)
+        lo, hi = qpos[0], qpos[-1]
+        bad = []
+        for _c, a in args[lo + 1:hi]:
+            if isinstance(a, (ast.Constant, ast.JoinedStr)) and not any(
+                    isinstance(x, ast.FormattedValue) for x in ast.walk(a)):
+                continue
+            from ..model import inline_locals
+            flat = inline_locals(f.node, a)
+            if any(isinstance(x, ast.Call) and (
+                    any(w in norm(x.func).lower()
+                        for w in ('escape', 'quote'))
+                    or norm(x.func).endswith('_RE.sub'))
+                    for x in ast.walk(ast.parse(flat, mode='eval'))):
+                continue
+            bad.append(norm(a)[:40])
+        ctx.ob(rule, f'{name}:escaped-between-quotes', not bad,
+               f'{name} writes {bad} between the quote delimiters it emits '
+               f'without passing it through an escaping function: a quote, '
+               f'backslash or control character in that text ends the '
+               f'literal early or changes what it reads back as', f.loc,
+               sample='constants / escape_string(...) only')
+    if n < 2:
+        raise AnalysisError(f'{rule}: quoting visitors not found ({n})')
+
+
+def enum_member_rule(repo: Repo, ctx, gen, gm, rule: str) -> None:
+    """If the grammar sets node.F to members of an enum and the visitor only
+    *compares* node.F with members (never prints its value), every member
+    the grammar uses must occur in the visitor."""
+    ctx.floor(rule, 1)
+    set_members = {}     # (class, field) -> {Enum.Member}
+    for mn in gm:
+        m = repo.modules.get(mn)
+        if m is None:
+            continue
+        for c in ast.walk(m.tree):
+            if not (isinstance(c, ast.Call) and dotted(c.func) and
+                    dotted(c.func).startswith('qlast.')):
+                continue
+            cls = dotted(c.func).split('.', 1)[1]
+            for k in c.keywords:
+                d = dotted(k.value) if k.arg else None
+                if d and d.startswith('qlast.') and d.count('.') == 2:
+                    enum_q = f'{QLAST}.{d.split(".")[1]}'
+                    ec = repo.classes.get(enum_q)
+                    if ec is not None and any('Enum' in b for b in
+                                              repo.mro(enum_q)):
+                        set_members.setdefault((cls, k.arg), set()).add(
+                            d.split('.', 1)[1])
+    n = 0
+    fr = V.FieldReads(repo, owner=gen, value_only=True)
+    for (cls, fld), members in sorted(set_members.items()):
+        f = gen.methods.get(f'visit_{cls}')
+        if f is None:
+            continue
+        # does the visitor use the value itself (prints / forwards it)?
+        if fld in fr.reads(f, f.params()[1] if len(f.params()) > 1
+                           else 'node'):
+            # a value read: only comparisons still count as compare-only
+            pass
+        compared = set()
+        valued = False
+        for n_ in ast.walk(f.node):
+            if isinstance(n_, ast.Attribute) and n_.attr == fld and \
+                    isinstance(n_.value, ast.Name):
+                par = _parent_of(f.node, n_)
+                if isinstance(par, ast.Compare):
+                    for x in [par.left] + par.comparators:
+                        d = dotted(x)
+                        if d and d.startswith('qlast.'):
+                            compared.add(d.split('.', 1)[1])
+                        if isinstance(x, (ast.Tuple, ast.List, ast.Set)):
+                            for e in x.elts:
+                                d = dotted(e)
+                                if d and d.startswith('qlast.'):
+                                    compared.add(d.split('.', 1)[1])
+                elif isinstance(par, (ast.If, ast.IfExp, ast.BoolOp,
+                                      ast.UnaryOp)):
+                    continue          # truthiness only
+                else:
+                    valued = True
+        # an if/elif chain over the field that ends in a plain `else`
+        # spells the remaining members generically
+        def chain_has_else(test_node):
+            for i_ in ast.walk(f.node):
+                if isinstance(i_, ast.If) and any(
+                        x is test_node for x in ast.walk(i_.test)):
+                    cur = i_
+                    while len(cur.orelse) == 1 and isinstance(
+                            cur.orelse[0], ast.If):
+                        cur = cur.orelse[0]
+                    return bool(cur.orelse)
+                if isinstance(i_, ast.IfExp) and any(
+                        x is test_node for x in ast.walk(i_.test)):
+                    return True
+            return False
+        generic = any(
+            isinstance(n_, ast.Attribute) and n_.attr == fld
+            and isinstance(n_.value, ast.Name) and chain_has_else(n_)
+            for n_ in ast.walk(f.node))
+        if valued or not compared or generic:
+            continue
+        n += 1
+        ctx.saw(f)
+        missing = sorted(members - compared)
+        ctx.ob(rule, f'visit_{cls}:{fld}', not missing,
+               f'the grammar sets {cls}.{fld} to {sorted(members)} but '
+               f'visit_{cls} only has a spelling for {sorted(compared)}: '
+               f'{missing} is silently dropped from the printed text', f.loc,
+               sample=f'{sorted(compared)} cover {sorted(members)}')
+    if n < 1:
+        raise AnalysisError(f'{rule}: only {n} compare-only enum fields')
+
+
+def _parent_of(root: ast.AST, node: ast.AST):
+    for p in ast.walk(root):
+        for c in ast.iter_child_nodes(p):
+            if c is node:
+                return p
+    return None
+
+
+def prefix_left_operand_rule(repo: Repo, ctx, gen, rule: str) -> None:
+    """Prefix operators bind looser than most infix operators, and infix
+    visitors print `( left OP right )`: a prefix operation in the left
+    position regroups unless it carries parentheses of its own."""
+    ctx.floor(rule, 2)
+    un = gen.methods.get('visit_UnaryOp')
+    if un is None:
+        raise AnalysisError(f'{rule}: visit_UnaryOp not found')
+    self_paren = _always_parens(un)
+    for name in ('visit_BinOp', 'visit_IsOp'):
+        f = gen.methods.get(name)
+        if f is None:
+            raise AnalysisError(f'{rule}: {name} not found')
+        ctx.saw(f)
+        direct = [c for c in ast.walk(f.node) if isinstance(c, ast.Call)
+                  and norm(c.func) == 'self.visit' and c.args
+                  and norm(c.args[0]).endswith('.left')]
+        via = [c for c in ast.walk(f.node) if isinstance(c, ast.Call)
+               and isinstance(c.func, ast.Attribute)
+               and norm(c.func.value) == 'self' and c.args
+               and norm(c.args[0]).endswith('.left')
+               and c.func.attr != 'visit']
+        wraps = False
+        for c in via:
+            h = gen.methods.get(c.func.attr)
+            if h is None:
+                continue
+            for t in ast.walk(h.node):
+                if isinstance(t, ast.If) and 'UnaryOp' in norm(t.test):
+                    w = [norm(x.args[0]) for b in t.body for x in ast.walk(b)
+                         if isinstance(x, ast.Call) and norm(x.func) ==
+                         'self.write' and x.args]
+                    if "'('" in w and "')'" in w:
+                        wraps = True
+        ok = self_paren or (not direct and wraps)
+        ctx.ob(rule, f'{name}:left-operand', ok,
+               f'{name} prints its left operand bare and visit_UnaryOp does '
+               f'not parenthesise itself: `(-a ^ 2)`, `(NOT (a) ?? b)` are '
+               f'read back as -(a ^ 2), NOT (a ?? b) because the prefix '
+               f'operator has lower precedence', f.loc,
+               sample='left operand wrapped when it is a UnaryOp')
